@@ -410,10 +410,10 @@ pub fn property() -> Property {
         ],
         minimise: None,
         subs: vec![
-            Sub::Bytes(BytesSub { name: "strings", f: strings, max_len: 1500, quick: Budget { threads: 8, cases: 8000 }, thorough: Budget { threads: 16, cases: 400_000 }, keep_unreproducible: false }),
-            Sub::Bytes(BytesSub { name: "arithmetic", f: arithmetic, max_len: 64, quick: Budget { threads: 8, cases: 20_000 }, thorough: Budget { threads: 16, cases: 1_000_000 }, keep_unreproducible: false }),
-            Sub::Bytes(BytesSub { name: "builtin-calls", f: builtin_calls, max_len: 32, quick: Budget { threads: 8, cases: 10_000 }, thorough: Budget { threads: 16, cases: 300_000 }, keep_unreproducible: false }),
-            Sub::Bytes(BytesSub { name: "api-totality", f: api_totality, max_len: 300, quick: Budget { threads: 4, cases: 4000 }, thorough: Budget { threads: 16, cases: 100_000 }, keep_unreproducible: false }),
+            Sub::Bytes(BytesSub { name: "strings", f: strings, max_len: 1500, quick: Budget { threads: 8, cases: 24000 }, thorough: Budget { threads: 16, cases: 400_000 }, keep_unreproducible: false }),
+            Sub::Bytes(BytesSub { name: "arithmetic", f: arithmetic, max_len: 64, quick: Budget { threads: 8, cases: 60000 }, thorough: Budget { threads: 16, cases: 1_000_000 }, keep_unreproducible: false }),
+            Sub::Bytes(BytesSub { name: "builtin-calls", f: builtin_calls, max_len: 32, quick: Budget { threads: 8, cases: 30000 }, thorough: Budget { threads: 16, cases: 300_000 }, keep_unreproducible: false }),
+            Sub::Bytes(BytesSub { name: "api-totality", f: api_totality, max_len: 300, quick: Budget { threads: 4, cases: 12000 }, thorough: Budget { threads: 16, cases: 100_000 }, keep_unreproducible: false }),
             Sub::Custom(CustomSub { name: "ladder", run: ladder, replay: replay_ladder }),
             Sub::Custom(CustomSub { name: "cases", run: fixed_cases, replay: replay_case }),
             Sub::Custom(CustomSub { name: "fuzz-total", run: fuzz_run, replay: fuzz_replay }),
